@@ -540,6 +540,10 @@ def v_argsort(ex, st, o, args, kwargs, node):
     v = st.get(o)
     if v.kind == "series" or args or kwargs:
         raise Unsupported("argsort: plain ndarray.argsort() only")
+    if v.perm is not None:
+        # the values are 0..n-1, each once: the only sorting order is the inverse permutation
+        used(ex, "argsort of a permutation of 0..n-1 = its inverse permutation")
+        return st.alloc(Vec(v.n, lambda j, inv=v.perm: inv(to_z3(j)), kind="array", perm=v.at))
     probe = v.at(z3.IntVal(0))
     if isinstance(probe, NF) or not is_z3(to_z3(probe)) or to_z3(probe).sort() == B:
         raise Unsupported("argsort of a nullable / boolean vector")
@@ -553,7 +557,7 @@ def v_argsort(ex, st, o, args, kwargs, node):
     st.assume(z3.ForAll([k], z3.Implies(inr, z3.And(0 <= Q(k), Q(k) < n, P(Q(k)) == k)), patterns=[Q(k)]))
     with binding(a, b):
         st.assume(z3.ForAll([a, b], z3.Implies(z3.And(0 <= a, a <= b, b < n), to_z3(v.at(P(a))) <= to_z3(v.at(P(b))))))
-    return st.alloc(Vec(v.n, lambda j: P(to_z3(j)), kind="array"))
+    return st.alloc(Vec(v.n, lambda j: P(to_z3(j)), kind="array", perm=lambda val: Q(to_z3(val))))
 
 
 @vm("argmax")
@@ -813,10 +817,47 @@ def np_repeat(ex, st, args, kwargs, node):
 
 @builtin("numpy.arange")
 def np_arange(ex, st, args, kwargs, node):
+    if len(args) == 3 and st.get(args[1]) == 0 and st.get(args[2]) == -1 and not kwargs:
+        n = st.get(args[0])           # np.arange(n, 0, -1) = n, n-1, ..., 1
+        ex.oblig("nonneg_length", "L%s" % getattr(node, "lineno", "?"), st, to_z3(n) >= 0)
+        return st.alloc(Vec(n, lambda k, n=n: to_z3(n) - to_z3(k), elt=dsl.Int, kind="array"))
     if len(args) != 1:
         raise Unsupported("np.arange(lo, hi)")
     n = st.get(args[0])
     return st.alloc(Vec(n, lambda k: k, elt=dsl.Int, kind="array"))
+
+
+@builtin("numpy.asarray")
+def np_asarray(ex, st, args, kwargs, node):
+    v = st.get(args[0])
+    dt = st.get(kwargs["dtype"]) if "dtype" in kwargs else None
+    if not isinstance(v, Vec) or len(args) != 1 or set(kwargs) - {"dtype"}:
+        raise Unsupported("np.asarray of a non-vector")
+    probe = v.at(z3.IntVal(0))
+    isf = isinstance(probe, NF) or (is_z3(to_z3(probe)) and to_z3(probe).sort() == R)
+    if dt is not None and not (isinstance(dt, Func) and dt.target == "float" and isf):
+        raise Unsupported("np.asarray(dtype=...) other than float of floats")
+    used(ex, "np.asarray of an array (of that dtype) is the array")
+    return args[0] if v.kind == "array" else st.alloc(v.with_(idx=None, kind="array"))
+
+
+@builtin("numpy.minimum.accumulate", "numpy.maximum.accumulate")
+def np_min_accumulate(ex, st, args, kwargs, node):
+    v = st.get(args[0])
+    is_max = "maximum" in ast.unparse(node.func)
+    probe = v.at(z3.IntVal(0))
+    if not isinstance(v, Vec) or isinstance(probe, NF) or len(args) != 1 or kwargs:
+        raise Unsupported("minimum.accumulate of a nullable / non-vector")
+    used(ex, "np.minimum.accumulate(v)[k] = min of the first k+1 elements: a lower bound of them that is one of them")
+    P = z3.Function(fresh_name("cummin"), I, to_z3(probe).sort())
+    W = z3.Function(fresh_name("cummin_at"), I, I)
+    k, m = fresh(I, "k"), fresh(I, "m")
+    with binding(k, m):
+        vm_, vw = to_z3(v.at(m)), to_z3(v.at(W(k)))
+    n = to_z3(v.n)
+    st.assume(z3.ForAll([k, m], z3.Implies(z3.And(0 <= m, m <= k, k < n), (P(k) >= vm_) if is_max else (P(k) <= vm_))))
+    st.assume(z3.ForAll([k], z3.Implies(z3.And(0 <= k, k < n), z3.And(0 <= W(k), W(k) <= k, P(k) == vw)), patterns=[P(k)]))
+    return st.alloc(Vec(v.n, lambda j: P(to_z3(j)), kind="array"))
 
 
 def _lift1(name, f):
